@@ -6,6 +6,7 @@ require (
 	github.com/KevoDB/kevo v0.0.0
 	github.com/anishathalye/porcupine v1.3.0
 	google.golang.org/grpc v1.72.0
+	google.golang.org/protobuf v1.36.6
 )
 
 require (
@@ -15,7 +16,6 @@ require (
 	golang.org/x/sys v0.31.0 // indirect
 	golang.org/x/text v0.23.0 // indirect
 	google.golang.org/genproto/googleapis/rpc v0.0.0-20250218202821-56aae31c358a // indirect
-	google.golang.org/protobuf v1.36.6 // indirect
 )
 
 replace github.com/KevoDB/kevo => /repo
